@@ -172,15 +172,15 @@ fn enabled<S: Service>(env: &Env<S>, vbase: u64, pos: usize, wide: bool) -> Vec<
     let mut v = vec![];
     let val = vbase + pos as u64;
     let entries: &[(u64, u8)] = &[(0, 0), (1, 1), (0, 1), (2, 0)];
-    let attempts_w = env.writers.len();
-    if attempts_w < 3 {
+    let (max_w, max_h, max_r, max_x) = if wide { (6, 8, 4, 5) } else { (3, 3, 2, 2) };
+    if env.writers.len() < max_w {
         v.push(Op::Cw(0));
         v.push(Op::Cw(1));
     }
     for (i, w) in env.writers.iter().enumerate() {
         if w.is_some() {
             v.push(Op::Dw(i));
-            if env.wh.len() < 3 {
+            if env.wh.len() < max_h {
                 for (k, t) in entries { v.push(Op::We(i, *k, *t)); }
             }
         }
@@ -202,14 +202,14 @@ fn enabled<S: Service>(env: &Env<S>, vbase: u64, pos: usize, wide: bool) -> Vec<
             }
         }
     }
-    if env.readers.len() < 2 {
+    if env.readers.len() < max_r {
         v.push(Op::Cr(1));
         if wide { v.push(Op::Cr(0)); }
     }
     for (r, x) in env.readers.iter().enumerate() {
         if x.is_some() {
             v.push(Op::Dr(r));
-            if env.rh.len() < 2 {
+            if env.rh.len() < max_x {
                 v.push(Op::Re(r, 0, 0));
                 v.push(Op::Re(r, 1, 1));
                 if wide { v.push(Op::Re(r, 0, 1)); v.push(Op::Re(r, 2, 0)); }
@@ -404,7 +404,7 @@ fn run_case<S: Service>(ctx: &mut Ctx<S>, mr: usize, mut src: Source) -> CaseRes
                     // creates and entry requests are favoured: the contention on the single writer
                     // slot and on the per-key producer flag is what the property is about
                     let hot: Vec<Op> = en.iter().cloned().filter(|o| matches!(o, Op::Cw(_) | Op::We(..))).collect();
-                    if !hot.is_empty() && rng.below(100) < 30 { hot[rng.below(hot.len() as u64) as usize] }
+                    if !hot.is_empty() && rng.below(100) < 12 { hot[rng.below(hot.len() as u64) as usize] }
                     else { en[rng.below(en.len() as u64) as usize] }
                 }
             }
